@@ -26,10 +26,11 @@
 // ---------------------------------------------------------------- shared memory layout
 struct TaskShm {
     int prog, bound, mode, floor, prefix_len, exp_len;
+    int noprune_first;          // stateful exploration: the first execution of this task is a re-run of one that was interrupted after it had entered its states: do not look them up
     uint8_t prefix[VS_MAXP], exp_nalt[VS_MAXP];
     uint32_t exp_sig[VS_MAXP];
 };
-struct Counters { uint64_t executions, steps, contended, parked, new_states, new_outcomes, max_points, max_threads; };
+struct Counters { uint64_t executions, steps, contended, parked, new_states, new_outcomes, max_points, max_threads, pruned, visited, table_full; };
 // Work donated by a busy worker: the untried alternatives at one level of its current choice vector (the shallowest level it could still
 // backtrack to).  The worker raises its own floor above that level and carries on; the coordinator turns every alternative into a subtree task.
 struct Donation { int level, nalts; uint8_t alts[256]; uint8_t choice[VS_MAXP], nalt[VS_MAXP]; uint32_t sig[VS_MAXP]; };
@@ -37,6 +38,7 @@ struct WorkerShm {
     TaskShm task;
     Counters cnt;
     volatile int cancel;
+    volatile int throttle;           // coordinator -> worker: kernel memory is piling up (see slab_kb), pause between executions
     volatile int split_request;      // coordinator -> worker: other workers are idle, donate part of your subtree
     volatile int donation_pending;   // worker -> coordinator: `donation` is filled in
     volatile int cur_floor;          // the level below which this worker will not backtrack (task floor, raised by donations)
@@ -47,8 +49,9 @@ struct WorkerShm {
 };
 enum { MODE_SINGLE = 0, MODE_SUBTREE = 1 };
 
-static const uint64_t STATE_BITS = 22, OUTCOME_BITS = 20;
-static uint64_t *g_state_table, *g_outcome_table;
+static const uint64_t STATE_BITS = 24, OUTCOME_BITS = 20;
+static uint64_t *g_state_table, *g_outcome_table, *g_prune_table;
+static const uint64_t PRUNE_BITS = 25;
 static WorkerShm *g_w;          // array [jobs + 1]; the last one is used by run_once children
 static VSuite g_suite;
 static std::string g_logdir;
@@ -92,9 +95,13 @@ static int alt_cost(uint8_t flags, int nalt, int alt) {
 
 struct Prefix { std::vector<uint8_t> choice, nalt; std::vector<uint32_t> sig; };
 
+// Stateful exploration: choice points at or after a state that had been visited before offer no alternatives (their subtree belongs to the execution that reached the state first).
+static inline int branch_n(const vs_record &r) { return r.pruned_at < r.n ? r.pruned_at : r.n; }
+static const int UNBOUNDED = 1000000;
+
 // Next choice vector in depth-first order below `floor` within `bound`; false when the subtree is exhausted.
 static bool next_prefix(const vs_record &r, int floor, int bound, Prefix &out) {
-    int n = r.n;
+    int n = branch_n(r);
     std::vector<int> cum(n + 1, 0);
     for (int j = 0; j < n; j++) cum[j + 1] = cum[j] + alt_cost(r.flags[j], r.nalt[j], r.choice[j]);
     for (int i = n - 1; i >= floor; i--) {
@@ -136,7 +143,7 @@ static uint64_t log_hash(const vs_slot &s) {
 }
 
 // ---------------------------------------------------------------- one execution (worker side)
-static void run_execution(WorkerShm &w, const VProgram &p, const Prefix &pre) {
+static void run_execution(WorkerShm &w, const VProgram &p, const Prefix &pre, bool prune = false, int prog_index = 0) {
     vs_options opt{};
     opt.unlock_points = p.unlock_points; opt.spurious = p.spurious;
     opt.horizon = p.horizon;
@@ -146,6 +153,8 @@ static void run_execution(WorkerShm &w, const VProgram &p, const Prefix &pre) {
     opt.exp_len = (int)std::min(pre.nalt.size(), pre.sig.size());
     opt.state_table = g_state_table; opt.state_mask = (1ULL << STATE_BITS) - 1;
     opt.state_cb = p.state_cb;
+    opt.park_cb = p.park_cb;
+    if (prune) { opt.prune_table = g_prune_table; opt.prune_mask = (1ULL << PRUNE_BITS) - 1; opt.prune_salt = 0x5bd1e995ULL * (uint64_t)(prog_index + 1); opt.prune_audit = p.stateful_audit; }
     w.race_seen = 0;
     vs_begin(&w.slot, &opt);
     try {
@@ -170,6 +179,7 @@ static void run_execution(WorkerShm &w, const VProgram &p, const Prefix &pre) {
     for (int i = 0; i < w.slot.rec.n && !contended; i++) if (!(w.slot.rec.flags[i] & VS_F_RUNNING_ENABLED)) contended = true;
     w.cnt.contended += contended ? 1 : 0;
     w.cnt.new_states += vs_new_states();
+    if (prune) { w.cnt.visited += w.slot.rec.new_states; if (w.slot.rec.pruned_at <= w.slot.rec.n) w.cnt.pruned++; if (w.slot.rec.table_full) w.cnt.table_full++; }
     w.cnt.new_outcomes += table_insert(g_outcome_table, OUTCOME_BITS, log_hash(w.slot));
     if ((uint64_t)w.slot.rec.n > w.cnt.max_points) w.cnt.max_points = w.slot.rec.n;
     if ((uint64_t)w.slot.nthreads > w.cnt.max_threads) w.cnt.max_threads = w.slot.nthreads;
@@ -201,15 +211,18 @@ static void worker_main(int k, int cmdfd, int donefd) {
         pre.sig.assign(t.exp_sig, t.exp_sig + t.exp_len);
         int floor = t.floor;
         w.cur_floor = floor;
+        bool first = true;
         for (;;) {
-            run_execution(w, p, pre);
+            while (w.throttle && !w.cancel) usleep(20000);
+            run_execution(w, p, pre, p.stateful && t.bound >= UNBOUNDED && !(first && t.noprune_first), t.prog);
+            first = false;
             if (t.mode == MODE_SINGLE || w.cancel) break;
             if (w.split_request && !w.donation_pending) {
                 // donate the untried alternatives of the shallowest level that still has some
                 const vs_record &r = w.slot.rec;
                 int cum = 0;
                 for (int j = 0; j < floor && j < r.n; j++) cum += alt_cost(r.flags[j], r.nalt[j], r.choice[j]);
-                for (int i = floor; i < r.n; i++) {
+                for (int i = floor; i < branch_n(r); i++) {
                     Donation &d = w.donation; d.nalts = 0;
                     for (int alt = r.choice[i] + 1; alt < r.nalt[i]; alt++) if (cum + alt_cost(r.flags[i], r.nalt[i], alt) <= t.bound) d.alts[d.nalts++] = (uint8_t)alt;
                     if (d.nalts) {
@@ -238,12 +251,23 @@ static void worker_main(int k, int cmdfd, int donefd) {
 }
 
 // ---------------------------------------------------------------- coordinator
-struct Task { int prog, bound, mode, floor; Prefix pre; };
+struct Task { int prog, bound, mode, floor; Prefix pre; int noprune_first = 0; };
 
 struct Worker { pid_t pid = -1; int cmdfd = -1, donefd = -1; bool busy = false; Task task; uint64_t last_hb = 0; double last_hb_t = 0, stall_t0 = 0, stall_sample_t = 0; long stall_cpu0 = -1; int stall_runnable = 0; Counters seen{}; };
 
 // What a worker without a heartbeat is doing, read from /proc: CPU ticks used by the process and whether any of its threads is runnable.  A worker that is blocked in something
 // the scheduler does not model sleeps in all its threads and uses no CPU; a worker that is merely starved by other load on the machine has a runnable thread (and is never called a hang).
+// Every execution creates and retires real threads.  The kernel frees their task structures lazily (RCU); when all CPUs are kept busy by several explorations at once the
+// backlog was seen to grow to tens of gigabytes of slab memory until the OOM killer struck.  The coordinator watches the slab size and pauses its workers while it is high.
+static bool g_throttled = false; static uint64_t g_throttle_events = 0;
+static long slab_kb() {
+    FILE *f = fopen("/proc/meminfo", "r"); if (!f) return -1;
+    char line[256]; long v = -1;
+    while (fgets(line, sizeof line, f)) if (sscanf(line, "Slab: %ld kB", &v) == 1) break;
+    fclose(f);
+    return v;
+}
+
 static bool proc_sample(pid_t pid, long &cpu_ticks, bool &any_runnable) {
     cpu_ticks = 0; any_runnable = false;
     char path[64]; snprintf(path, sizeof path, "/proc/%d/task", (int)pid);
@@ -270,6 +294,7 @@ struct Violation {
 
 struct ProgStats {
     uint64_t schedules = 0, steps = 0, contended = 0, parked = 0; int completed_bound = -1; bool capped = false;
+    uint64_t visited_states = 0, pruned_executions = 0, table_full = 0; bool stateful_done = false;
     std::vector<uint64_t> per_bound, per_bound_contended; uint64_t max_points = 0, max_threads = 0; std::string root_schedule, last_schedule;
 };
 
@@ -283,7 +308,7 @@ static void spawn_worker(int k) {
     int cmd[2], done[2];
     if (pipe(cmd) || pipe(done)) { perror("pipe"); exit(2); }
     memset(&g_w[k].cnt, 0, sizeof(Counters));
-    g_w[k].cancel = 0; g_w[k].split_request = 0; g_w[k].donation_pending = 0;
+    g_w[k].cancel = 0; g_w[k].split_request = 0; g_w[k].donation_pending = 0; g_w[k].throttle = g_throttled ? 1 : 0;
     pid_t pid = fork();
     if (pid < 0) { perror("fork"); exit(2); }
     if (pid == 0) {
@@ -329,7 +354,7 @@ static const char *outcome_name(int o) {
 static void send_task(int k, const Task &t) {
     Worker &w = g_workers[k];
     TaskShm &s = g_w[k].task;
-    s.prog = t.prog; s.bound = t.bound; s.mode = t.mode; s.floor = t.floor;
+    s.prog = t.prog; s.bound = t.bound; s.mode = t.mode; s.floor = t.floor; s.noprune_first = t.noprune_first;
     s.prefix_len = (int)t.pre.choice.size(); s.exp_len = (int)std::min(t.pre.nalt.size(), t.pre.sig.size());
     memcpy(s.prefix, t.pre.choice.data(), t.pre.choice.size());
     memcpy(s.exp_nalt, t.pre.nalt.data(), s.exp_len);
@@ -452,6 +477,7 @@ static void absorb(RunState &rs, int k, int prog) {
     ps.contended += c.contended - s.contended; ps.parked += c.parked - s.parked;
     rs.states += c.new_states - s.new_states; rs.outcomes += c.new_outcomes - s.new_outcomes;
     ps.max_points = std::max(ps.max_points, c.max_points); ps.max_threads = std::max(ps.max_threads, c.max_threads);
+    ps.visited_states += c.visited - s.visited; ps.pruned_executions += c.pruned - s.pruned; ps.table_full += c.table_full - s.table_full;
     s = c;
 }
 
@@ -547,6 +573,17 @@ static bool explore(RunState &rs, int prog, int bound, int max_violations) {
             bool want = !stop && tasks.empty() && busy < g_jobs;
             for (int k = 0; k < g_jobs; k++) if (g_workers[k].busy && g_workers[k].task.mode == MODE_SUBTREE) g_w[k].split_request = want ? 1 : 0;
         }
+        {   // kernel-memory back-pressure
+            static double last_check = 0; bool &throttled = g_throttled; uint64_t &throttle_events = g_throttle_events;
+            double tn = now_s();
+            if (tn - last_check > 0.25) {
+                last_check = tn;
+                long kb = slab_kb();
+                bool want = throttled ? kb > 1500000 : kb > 3000000;      // pause above 3 GB, resume below 1.5 GB
+                if (want != throttled) { throttled = want; if (want) throttle_events++; for (int k = 0; k < g_jobs; k++) g_w[k].throttle = want ? 1 : 0; }
+                if (throttled) for (int k = 0; k < g_jobs; k++) { g_workers[k].last_hb_t = tn; g_workers[k].stall_cpu0 = -1; }      // a paused worker is not a hung worker
+            }
+        }
         std::vector<pollfd> pf; std::vector<int> idx;
         for (int k = 0; k < g_jobs; k++) if (g_workers[k].busy) { pf.push_back({g_workers[k].donefd, POLLIN, 0}); idx.push_back(k); }
         poll(pf.data(), pf.size(), 20);
@@ -565,7 +602,7 @@ static bool explore(RunState &rs, int prog, int bound, int max_violations) {
                         // children of this node
                         int floor = (int)w.task.pre.choice.size();
                         int base = 0; for (int j = 0; j < floor && j < r.n; j++) base += alt_cost(r.flags[j], r.nalt[j], r.choice[j]);
-                        for (int i2 = floor; i2 < r.n; i2++) for (int alt = 1; alt < r.nalt[i2]; alt++) {
+                        for (int i2 = floor; i2 < branch_n(r); i2++) for (int alt = 1; alt < r.nalt[i2]; alt++) {
                             if (base + alt_cost(r.flags[i2], r.nalt[i2], alt) > bound) continue;
                             Task c; c.prog = prog; c.bound = bound;
                             c.pre.choice.assign(r.choice, r.choice + i2); c.pre.choice.push_back((uint8_t)alt);
@@ -615,9 +652,9 @@ static bool explore(RunState &rs, int prog, int bound, int max_violations) {
                     // a deterministic schedule is re-run once in a fresh process before it is called a hang (the explorer always extends a prefix with default choices,
                     // so "the choices recorded so far" identify the execution that was in progress)
                     if (++hang_retries[sched_str(rr.choice, rr.n)] >= 2) { rs.inconclusive.push_back(b); stop = true; }
-                    else if (t.mode == MODE_SINGLE) tasks.push_front(t);
-                    else if ((int)cur.choice.size() < t.floor) tasks.push_front(w.task);      // stalled before its prefix was replayed: the position in the subtree is unknown, redo the whole task (duplicates, never gaps)
-                    else { Task c{prog, bound, MODE_SUBTREE, t.floor, std::move(cur)}; tasks.push_front(std::move(c)); }
+                    else if (t.mode == MODE_SINGLE) { t.noprune_first = 1; tasks.push_front(t); }
+                    else if ((int)cur.choice.size() < t.floor) { Task again = w.task; again.noprune_first = 1; tasks.push_front(again); }      // stalled before its prefix was replayed: the position in the subtree is unknown, redo the whole task (duplicates, never gaps)
+                    else { Task c{prog, bound, MODE_SUBTREE, t.floor, std::move(cur)}; c.noprune_first = 1; tasks.push_front(std::move(c)); }
                 }
             }
         }
@@ -662,6 +699,11 @@ int main(int argc, char **argv) {
     size_t wbytes = sizeof(WorkerShm) * (g_jobs + 1), sbytes = sizeof(uint64_t) << STATE_BITS, obytes = sizeof(uint64_t) << OUTCOME_BITS;
     char *mem = (char *)mmap(nullptr, wbytes + sbytes + obytes, PROT_READ | PROT_WRITE, MAP_SHARED | MAP_ANONYMOUS, -1, 0);
     if (mem == MAP_FAILED) { perror("mmap"); return 2; }
+    bool any_stateful = false; for (auto &p : g_suite.programs) any_stateful |= p.stateful;
+    if (any_stateful) {
+        g_prune_table = (uint64_t *)mmap(nullptr, sizeof(uint64_t) << PRUNE_BITS, PROT_READ | PROT_WRITE, MAP_SHARED | MAP_ANONYMOUS | MAP_NORESERVE, -1, 0);
+        if (g_prune_table == MAP_FAILED) { perror("mmap prune table"); return 2; }
+    }
     g_w = (WorkerShm *)mem; g_state_table = (uint64_t *)(mem + wbytes); g_outcome_table = (uint64_t *)(mem + wbytes + sbytes);
 
     // ---- replay of one schedule
@@ -684,6 +726,13 @@ int main(int argc, char **argv) {
         if (!only.empty() && p.name != only) continue;
         int top = max_bound >= 0 ? std::min(max_bound, p.bound) : p.bound;
         rs.stats[(int)pi];
+        if (p.stateful) {
+            // ALL schedules, no preemption bound: depth-first over choice vectors, cut off at every state that has been reached before (visited set shared by the workers)
+            // an empty visited set for this program: punch the pages out of the shared anonymous mapping (it reads back as zeros), or clear it the slow way
+            if (madvise(g_prune_table, sizeof(uint64_t) << PRUNE_BITS, MADV_REMOVE) != 0) memset(g_prune_table, 0, sizeof(uint64_t) << PRUNE_BITS);
+            if (explore(rs, (int)pi, UNBOUNDED, max_violations) && !g_deadline_hit) rs.stats[(int)pi].stateful_done = true;
+            continue;
+        }
         for (int b = 0; b <= top; b++) {
             if (g_deadline_hit) { rs.stats[(int)pi].capped = true; break; }
             if (!explore(rs, (int)pi, b, max_violations)) break;
@@ -713,7 +762,7 @@ int main(int argc, char **argv) {
     double wall = now_s() - t0;
     FILE *f = out_path.empty() ? stdout : fopen(out_path.c_str(), "w");
     if (!f) { perror("open result"); return 2; }
-    fprintf(f, "{\n \"property\": \"%s\", \"tier\": \"%s\", \"flavour\": \"%s\", \"engine\": \"vsched\", \"jobs\": %d, \"wall_s\": %.2f,\n", g_property.c_str(), g_tier.c_str(), g_flavour.c_str(), g_jobs, wall);
+    fprintf(f, "{\n \"property\": \"%s\", \"tier\": \"%s\", \"flavour\": \"%s\", \"engine\": \"vsched\", \"jobs\": %d, \"wall_s\": %.2f, \"paused_for_kernel_memory\": %llu,\n", g_property.c_str(), g_tier.c_str(), g_flavour.c_str(), g_jobs, wall, (unsigned long long)g_throttle_events);
     fprintf(f, " \"exhaustive\": %s, \"deadline_hit\": %s,\n", exhaustive && rs.inconclusive.empty() ? "true" : "false", g_deadline_hit ? "true" : "false");
     fprintf(f, " \"rule\": \"%s\",\n", jesc(g_suite.rule).c_str());
     fprintf(f, " \"assumptions\": [");
@@ -730,7 +779,9 @@ int main(int argc, char **argv) {
                 (unsigned long long)s.contended, (unsigned long long)s.parked, (unsigned long long)s.max_points, (unsigned long long)s.max_threads);
         for (size_t i = 0; i < s.per_bound.size(); i++) fprintf(f, "%s%llu", i ? "," : "", (unsigned long long)s.per_bound[i]);
         bool complete = s.per_bound.size() >= 2 && s.completed_bound == (int)s.per_bound.size() - 1 && s.per_bound[s.per_bound.size() - 1] == s.per_bound[s.per_bound.size() - 2];
-        fprintf(f, "], \"all_schedules_explored\": %s, \"per_bound_contended\": [", complete ? "true" : "false");
+        if (p.stateful) complete = s.stateful_done && s.table_full == 0;
+        fprintf(f, "], \"stateful\": %s, \"visited_states\": %llu, \"executions_cut_at_visited_state\": %llu, \"all_schedules_explored\": %s, \"per_bound_contended\": [", p.stateful ? "true" : "false",
+                (unsigned long long)s.visited_states, (unsigned long long)s.pruned_executions, complete ? "true" : "false");
         for (size_t i = 0; i < s.per_bound_contended.size(); i++) fprintf(f, "%s%llu", i ? "," : "", (unsigned long long)s.per_bound_contended[i]);
         fprintf(f, "], \"default_schedule\": \"%s\", \"last_schedule\": \"%s\"}", s.root_schedule.c_str(), s.last_schedule.c_str());
         first = false;
